@@ -50,8 +50,22 @@ func init() {
 				}
 			}
 			trailing := r.Intn(2) == 0
-			o := checkDoc(b, trailing)
-			w.Write(map[string]interface{}{"bytes": bytesToInts(b), "trailing": trailing, "ok": o.OK, "kind": o.Kind, "pos": o.Pos})
+			// every third document is first read to the end through NextLexeme: Check must not depend on the cursor
+			var o Outcome
+			if i%3 == 1 {
+				o = guard(func() error {
+					d := jdocNewOpt(b, trailing)
+					for k := 0; k < 10*len(b)+10; k++ {
+						if _, e := d.NextLexeme(); e != nil {
+							break
+						}
+					}
+					return d.Check()
+				})
+			} else {
+				o = checkDoc(b, trailing)
+			}
+			w.Write(map[string]interface{}{"bytes": bytesToInts(b), "trailing": trailing, "ok": o.OK, "kind": o.Kind, "pos": o.Pos, "drain": i%3 == 1})
 		}
 		return 0
 	})
